@@ -585,8 +585,11 @@ pub fn random_runs(args: &pv_core::Args) {
             }
             if mode != "c28" {
                 // events no real connection would produce
-                let anyp = rng.range(1, npeers);
-                let w = if productive { 1 } else if mode == "c29" { 6 } else { noise };
+                // tame runs stay peer-drivable: arbitrary (also protocol-violating) messages only on live connections
+                let livev: Vec<u64> = d.live.iter().copied().collect();
+                let anyp = if tame && !livev.is_empty() { *rng.pick(&livev) } else { rng.range(1, npeers) };
+                let skip_msgs = tame && livev.is_empty();
+                let w = if skip_msgs { 0 } else if productive { 1 } else if mode == "c29" { 6 } else { noise };
                 let mut m1 = msgs::random_desc(&mut rng, npeers);
                 let mut m2 = msgs::random_desc(&mut rng, npeers);
                 while tame && (m1.proto == "handshake" || m2.proto == "handshake") {
@@ -594,7 +597,7 @@ pub fn random_runs(args: &pv_core::Args) {
                     m2 = msgs::random_desc(&mut rng, npeers);
                 }
                 c.push((w, Step::msg("recv", anyp, m1)));
-                c.push((if productive { 1 } else if mode == "c29" { 3 } else { noise.min(1) }, Step::msg("sent", anyp, m2)));
+                c.push((if skip_msgs { 0 } else if productive { 1 } else if mode == "c29" { 3 } else { noise.min(1) }, Step::msg("sent", anyp, m2)));
                 if !tame {
                     c.push((if mode == "c29" { 2 } else { 1 }, Step::new("connected", anyp)));
                 }
